@@ -12,13 +12,15 @@
 #include "verif.h"
 #include <errno.h>
 #include "misuse.h"
+#include "rng.h"
 #include "crypto_pwhash_scryptsalsa208sha256.h"
 #include "crypto_pwhash/scryptsalsa208sha256/crypto_scrypt.h"
 
 struct IN {
     uint8_t  str[102];
     uint64_t opslimit, memlimit, outlen, passwdlen;
-    uint8_t  init_fails, core_fails, free_fails, alias;
+    uint8_t  init_fails, core_fails, free_fails, alias, gensalt_fails;
+    uint8_t  result[102], rngb[40];
 };
 
 static struct IN g;
@@ -39,6 +41,31 @@ int escrypt_kdf_sse(escrypt_local_t *l, const uint8_t *pw, size_t pwl, const uin
 int escrypt_init_local(escrypt_local_t *l) { init_calls++; l->base = l->aligned = NULL; l->size = 0; return g.init_fails ? -1 : 0; }
 int escrypt_free_local(escrypt_local_t *l) { free_calls++; return g.free_fails ? -1 : 0; }
 int sodium_runtime_has_sse2(void) { return 1; }
+
+#if PART == 2
+/* string layer recorders, installed over escrypt_gensalt_r / escrypt_r with goto-instrument --replace-calls */
+static int      gs_calls, er_calls;
+static uint32_t gs_n, gs_r, gs_p;
+static uint8_t  gs_salt[32], er_result[102];
+static const uint8_t *er_setting, *er_pw;
+static uint8_t *er_buf, *gs_buf;
+static size_t   er_buflen, er_pwlen, gs_saltlen, gs_buflen;
+uint8_t *
+cut_gensalt(uint32_t N_log2, uint32_t r, uint32_t p, const uint8_t *src, size_t srclen, uint8_t *buf, size_t buflen)
+{
+    gs_calls++; gs_n = N_log2; gs_r = r; gs_p = p; gs_saltlen = srclen; gs_buf = buf; gs_buflen = buflen;
+    if (srclen == 32) memcpy(gs_salt, src, 32);
+    return g.gensalt_fails ? NULL : buf;
+}
+uint8_t *
+cut_escrypt_r(escrypt_local_t *local, const uint8_t *passwd, size_t passwdlen, const uint8_t *setting, uint8_t *buf, size_t buflen)
+{
+    er_calls++; er_setting = setting; er_pw = passwd; er_pwlen = passwdlen; er_buf = buf; er_buflen = buflen;
+    if (g.core_fails) return NULL;
+    if (buflen == 102) memcpy(buf, g.result, 102);      /* arbitrary recomputed string */
+    return buf;
+}
+#endif
 
 static void
 spec_pick(uint64_t ops, uint64_t mem, uint32_t *nlog2, uint32_t *r, uint32_t *p)
@@ -110,6 +137,42 @@ VERIF_MAIN
                 if (rc == 0) WITNESS_AT("up to date"); else WITNESS_AT("needs rehash");
             }
         }
+    }
+#elif PART == 2
+    {
+        static char out[103], pw[1];
+        int         i, nz = 0, len = -1, same = 1;
+        verif_rng_src = in.rngb; verif_rng_cap = 40; verif_rng_pos = 0; verif_rng_nreq = 0;
+        out[102] = 0x5a;
+        rc = crypto_pwhash_scryptsalsa208sha256_str(out, pw, in.passwdlen, in.opslimit, (size_t) in.memlimit);
+        CHECK(out[102] == 0x5a, "nothing written beyond STRBYTES");
+        CHECK(verif_rng_pos == 32 && v_eq(gs_salt, in.rngb, 32) && gs_saltlen == 32, "the salt is exactly 32 bytes drawn from the installed random source");
+        CHECK(gs_calls == 1 && gs_n == nl && gs_r == 8 && gs_p == p, "the setting string is generated for the parameters selected from the limits");
+        if (in.gensalt_fails || in.init_fails) {
+            CHECK(rc == -1 && er_calls == 0, "failing set-up => -1, nothing hashed");
+        } else {
+            CHECK(er_calls == 1 && er_setting == gs_buf && er_buf == (uint8_t *) out && er_buflen == 102 && er_pw == (const uint8_t *) pw && er_pwlen == in.passwdlen,
+                  "scrypt invoked once on the generated setting, the caller's password and output buffer");
+            CHECK((rc == 0) == !in.core_fails && (rc == 0 || rc == -1), "0 <=> hashing succeeded");
+            CHECK(free_calls == 1, "local state released on every path");
+            if (rc == 0) WITNESS_AT("str success");
+        }
+        /* str_verify on an arbitrary presented buffer */
+        er_calls = 0; init_calls = 0; free_calls = 0;
+        for (i = 101; i >= 0; i--) if (in.str[i] == 0) len = i;
+        rc = crypto_pwhash_scryptsalsa208sha256_str_verify((const char *) in.str, pw, in.passwdlen);
+        CHECK(rc == 0 || rc == -1, "str_verify returns 0 or -1");
+        if (len != 101) {
+            CHECK(rc == -1 && er_calls == 0, "a string that is not exactly 101 characters never verifies and is not hashed");
+        } else if (in.init_fails || in.core_fails) {
+            CHECK(rc == -1, "failing set-up or hashing => no match");
+        } else {
+            for (i = 0; i < 102; i++) same &= in.result[i] == in.str[i];
+            CHECK(er_calls == 1 && er_setting == in.str && er_buflen == 102, "recomputation uses the presented string as setting");
+            CHECK((rc == 0) == same, "str_verify returns 0 <=> all 102 bytes of the recomputed string equal the presented one");
+            if (rc == 0) WITNESS_AT("verify match"); else WITNESS_AT("verify mismatch");
+        }
+        (void) nz;
     }
 #else
     {
